@@ -582,13 +582,18 @@ fn lcs_fields(ms: &[(u32, u32)], k: usize) -> String {
     let r = sparse::lcskpp(ms, k);
     // dp_vector: one (score, predecessor) cell per match (the vector is allocated with one slot per event)
     let dp: Vec<u32> = r.dp_vector.iter().take(ms.len()).map(|c| c.0).collect();
-    format!("score={} path={} dp={}", r.score, join(&r.path, ","), join(&dp, ","))
+    // the whole vector as score:predecessor+1 (0 = no predecessor, -1 in the code), compared with the mirror model (drift tag only)
+    let dpf: Vec<String> = r.dp_vector.iter().map(|c| format!("{}:{}", c.0, c.1 as i64 + 1)).collect();
+    let dpf = if dpf.is_empty() { "-".to_string() } else { dpf.join(",") };
+    format!("score={} path={} dp={} dpf={}", r.score, join(&r.path, ","), join(&dp, ","), dpf)
 }
 
 fn sdp_fields(ms: &[(u32, u32)], k: usize, msc: u32, go: i32, ge: i32) -> String {
     let r = sparse::sdpkpp(ms, k, msc, -go, -ge);
     let u = sparse::sdpkpp_union_lcskpp_path(ms, k, msc, -go, -ge);
-    format!("sdp={} uni={}", join(&r.path, ","), join(&u, ","))
+    let dpf: Vec<String> = r.dp_vector.iter().map(|c| format!("{}:{}", c.0, c.1 as i64 + 1)).collect();
+    let dpf = if dpf.is_empty() { "-".to_string() } else { dpf.join(",") };
+    format!("sdp={} uni={} sdpscore={} sdpf={}", join(&r.path, ","), join(&u, ","), r.score, dpf)
 }
 
 pub fn exec(toks: &[&str]) -> Result<String, String> {
